@@ -7,6 +7,7 @@ import Gen.CSrc
     cs <fn> s_0 … s_{k-1} | ptr_0 … ptr_{m-1} | cells of buffer 0 | cells of buffer 1 | …
   answer:
     ok | cells of buffer 0 | cells of buffer 1 | …        (the whole final memory)
+    ok = v | cells of buffer 0 | …                         (value-returning function: result, then the memory)
     err <fuel|oob|null|overlap|ub|unsupported>
     bad-op                                                 (unknown function / wrong number of arguments)
 
@@ -43,7 +44,15 @@ def handleCs (args : List String) : Option String :=
         else
           let mem : Mem := (bufs.map ints).toArray
           match run 1000000000000 fn (sc.map parseInt) (ps.map parsePtr) mem with
-          | .ok m => some ("ok" ++ String.join (m.toList.map fun b => " | " ++ joinInts b))
+          | .ok m =>
+            let tail := String.join (m.toList.map fun b => " | " ++ joinInts b)
+            match fn.ret with
+            | none => some ("ok" ++ tail)
+            | some _ =>
+              match runVal 1000000000000 fn (sc.map parseInt) (ps.map parsePtr) mem with
+              | .ok (some v) => some ("ok = " ++ toString v ++ tail)
+              | .ok none => some ("ok" ++ tail)
+              | .err e => some ("err " ++ errName e)
           | .err e => some ("err " ++ errName e)
       | _ => none
   | _ => none
